@@ -406,7 +406,7 @@ def config_text(plan, scratch):
         for h in lg["handlers"]:
             out.append("  <logfile>")
             p = h["path"]
-            if p not in ("STDOUT", "STDERR"):
+            if p not in ("STDOUT", "STDERR") and not h.get("relname"):
                 p = os.path.join(scratch, p)
             out.append("    path %s" % p)
             for key, opt in (("level", "level"), ("style", "style"),
@@ -511,6 +511,14 @@ def gen_handler(rng, k, p_bad=0.3):
     std = h["path"] != "FILE"
     if h["path"] == "FILE":
         h["path"] = "f%d.log" % k
+        if rng.random() < 0.08:
+            # a log file named by a bare relative name (the process's
+            # current directory is the log directory), spelled like the
+            # stream names but not one of them
+            h["path"] = rng.choice(["stdout", "Stderr", "StdOut", "stderr",
+                                    "stdout.log", "STDOUT.txt"]) + (
+                "" if rng.random() < 0.7 else str(k))
+            h["relname"] = True
     h["level"] = gen_level(rng, p_bad) if rng.random() < 0.9 else None
     r = rng.random()
     bad = rng.random() < p_bad
@@ -835,6 +843,7 @@ def execute(plan):
         root.handlers[:] = []
         logging.raiseExceptions = False
         with SimWorld(realfs=True, scratch=scratch) as w:
+            os.chdir(scratch)       # relative log file names live here
             os.environ["TZ"] = "UTC"
             time.tzset()
             time.time = clock.now
@@ -846,6 +855,10 @@ def execute(plan):
                 sys.stdout, sys.stderr = saved["stdout"], saved["stderr"]
         time.tzset()
     finally:
+        try:
+            os.chdir("/")
+        except OSError:
+            pass
         logging._levelToName.clear()
         logging._levelToName.update(saved["levelnames"][0])
         logging._nameToLevel.clear()
